@@ -13,6 +13,7 @@ import (
 type C11Case struct {
 	Files  [][]byte `json:"files"`
 	Beyond int      `json:"beyond"` // how many positions past the last file are probed
+	Order  []int    `json:"order,omitempty"` // further global positions (modulo the used range) looked up in this order
 }
 
 func (c *C11Case) Describe() string { return fmt.Sprintf("files=%q beyond=%d", c.Files, c.Beyond) }
@@ -27,6 +28,10 @@ func genC11(t *rapid.T) interface{} {
 			b = append(b, rapid.SampledFrom([]string{"\n", "\r", "\r\n", "a", "b", " ", "é", "\n\n", "\r\r\n", "x"}).Draw(t, "piece")...)
 		}
 		c.Files = append(c.Files, b)
+	}
+	k := rapid.IntRange(0, 12).Draw(t, "lookups")
+	for i := 0; i < k; i++ {
+		c.Order = append(c.Order, rapid.IntRange(0, 60).Draw(t, "lookup"))
 	}
 	return c
 }
@@ -111,6 +116,25 @@ func checkC11(ci interface{}, st *Stats) (err error) {
 		}
 		if got := files[i].Position(len(norm[i]) + 1); got != parsley.NilPosition {
 			return fmt.Errorf("file %d: Position(len+1) = %v, want the nil position", i, got)
+		}
+	}
+	// lookups in arbitrary order (a table built lazily or a remembered last line must not matter)
+	if end > 1 {
+		for _, o := range c.Order {
+			gp := 1 + o%(end-1)
+			want := "unknown"
+			for i := range files {
+				if gp >= bases[i] && gp <= bases[i]+len(norm[i]) {
+					l, col := lineCol(string(norm[i]), gp-bases[i])
+					want = fmt.Sprintf("file%d:%d:%d", i, l, col)
+					if got := files[i].Position(gp - bases[i]).String(); got != want {
+						return fmt.Errorf("file %d: Position(%d) looked up out of order = %s, want %s", i, gp-bases[i], got, want)
+					}
+				}
+			}
+			if got := fs.Position(parsley.Pos(gp)).String(); got != want {
+				return fmt.Errorf("global position %d looked up out of order renders as %s, want %s", gp, got, want)
+			}
 		}
 	}
 	// ErrorWithPosition renders through the same mapping
